@@ -30,7 +30,7 @@ class C15(PureCheck):
     warm_every = 3
     rule = ("layouts with >=1 run: all single-run layouts of length 0..2 + sampled 2- and 3-run layouts (quick) / all <=2-run "
             "layouts + sampled 3-run (thorough) over {a, b, space, newline, comma} x {plain, red, bold+on_blue}; split with 8 "
-            "separators (present/absent/adjacent/at the ends) and 5 group-free regexes, splitlines with keepends False/True, "
+            "separators (present/absent/adjacent/at the ends) and 5 group-free regexes, 5 separators with regex metacharacters used both literally and as regexes, splitlines with keepends False/True, "
             "ljust/rjust with widths below/at/above the length with and without fill, 36 delegated str method calls; Python's "
             "own answer on the plain text is logged with each event as the reference. distinct_nontrivial = distinct "
             "(layout, method, args) with a formatted or multi-run operand")
@@ -48,6 +48,14 @@ class C15(PureCheck):
             pool = L1 + L2[::2] + [[rng.choice(runs) for _ in range(3)] for _ in range(3000)]
         else:
             pool = L1 + rng.sample(L2, 350) + [[rng.choice(runs) for _ in range(3)] for _ in range(150)]
+        # separators that mean different things as a literal and as a regular expression, each used in both
+        # modes (in both orders) within this one process
+        runs_m = [[list(t), list(a)] for t in fmtlib.texts_upto((97, 46, 32, 43), 3, 1) for a in ATTS[:2]]
+        for k in range(120 if tier == "quick" else 2500):
+            f = [rng.choice(runs_m) for _ in range(rng.choice([1, 2]))]
+            for sep in (".", "a.", " +", ".+", "a+"):
+                for regex in ((0, 1) if k % 2 else (1, 0)):
+                    yield {"op": "split", "f": f, "sep": enc.enc_text(sep), "regex": regex}
         for f in pool:
             n = fmtlib.vlen(f)
             for sep in SEPS:
